@@ -48,6 +48,9 @@ class Check:
         self.notes = []
         self.workdir = tempfile.mkdtemp(prefix=f"verif_{pid}_")
         os.makedirs(REPLAYS, exist_ok=True)
+        for old in os.listdir(REPLAYS):
+            if old.startswith(pid + "-"):
+                os.remove(os.path.join(REPLAYS, old))
 
     # ---- bookkeeping
     def add_tlc(self, name, res, *, must_pass=True, expect_violation=None):
